@@ -130,6 +130,7 @@ class Check:
             'paths_enumerated': self.analysed['paths'],
             'call_sites_examined': self.analysed['call_sites'],
             'not_decided': self.not_decided,
+            'notes': list(self.notes),
             'known_findings_reported': [r['key'] for r in kn_viol],
             'broken': [{k: r[k] for k in ('rule', 'key', 'detail')} for r in brok],
             'checker_cmd': './check %s --tier %s' % (self.pid, self.tier),
